@@ -521,7 +521,7 @@ def _execute_expiry(sc, chooser):
     pop = sc['population']
     f = sc['faulty'][0]
     text = 'time 0 repeat 400 begin get "{}" hue 5 saturation 5 ' \
-        'brightness 5 {} end\n{}'.format(
+        'brightness 5 {} end\n{}\nprintln "END-OF-SCRIPT"'.format(
             pop[sc['slow']]['label'], ' '.join(sc['cmds']),
             _sentinel_stmt(pop, sc['sentinel']))
     # where the refresh thread is held: inside the public LightSet.refresh(),
@@ -590,9 +590,12 @@ def _execute_expiry(sc, chooser):
         st['known_after'] = list(ls.get_light_names())
 
     _scope_group_commands()
-    with world.StdoutCapture():
+    with world.StdoutCapture() as so:
         sim, out = world.run_sim(main, chooser, gran=sc['policy']['gran'],
                                  step_cap=900000, fairness=200)
+    # the script's last statement prints a marker: reaching it does not
+    # depend on the wording of any log entry
+    reached_end = 'END-OF-SCRIPT' in so.text()
     res = {'violations': viol, 'digest': sim.digest(),
            'switch_digest': sim.switch_digest(), 'sim_time': sim.now,
            'steps': sim.steps, 'faults': {}, 'probes': dict(sim.stats),
@@ -614,13 +617,15 @@ def _execute_expiry(sc, chooser):
     stopped = [m for lv, m in cap.records if 'Machine stopped due to' in m]
     # (the last command itself may find its light expired as well: a
     # discovery that fails because of the one bulb renews nobody)
-    if st.get('escaped') or stopped:
+    if st.get('escaped') or stopped or not reached_end:
         viol.append({'sig': 'C12/script-stopped/expiry-during-command',
                      'msg': 'bulb {!r} stopped answering and was expired by '
                             'the refresh thread while the script was inside '
                             'a group/location command; the script did not '
                             'reach its last command: {}'.format(
-                                label, st.get('escaped') or stopped[0])})
+                                label, st.get('escaped') or
+                                (stopped[0] if stopped else
+                                 'its last statement never ran'))})
     return res
 
 
